@@ -840,6 +840,12 @@ class ExprMixin:
         fit the conversion specifiers of the literal, else TypeError / ValueError at run time."""
         import re as _re
         if not (isinstance(e.left, ast.Constant) and isinstance(e.left.value, str)):
+            # the format is computed (e.g. a message that may contain user text with '%'): nothing
+            # guarantees that its conversions fit the arguments
+            if not (self.catches(st, 'builtin:TypeError') and self.catches(st, 'builtin:ValueError')):
+                self.oblige(st, False, 'safety', 'percent-format-computed', node=e,
+                            info={'claim': 'a computed string is used as a %-format: its conversions cannot be shown '
+                                           'to fit the arguments (TypeError / ValueError)'})
             return
         fmt = e.left.value
         specs = _re.findall(r'%(\([^)]*\))?[-#0 +]*(\*|\d+)?(?:\.(\*|\d+))?[hlL]?(.)', fmt)
